@@ -342,6 +342,8 @@ func (w *vvWorld) depositData(asset, txid string, index uint64, amt common.Integ
 		return &common.DepositData{Chain: common.BitcoinAssetId, AssetKey: "c6d0c728-2624-429b-8e0d-d9d19b6592fa", Transaction: txid, Index: index, Amount: amt}
 	case "OTH":
 		return &common.DepositData{Chain: common.EthereumAssetId, AssetKey: "0xverifoth", Transaction: txid, Index: index, Amount: amt}
+	case "ZER":
+		return &common.DepositData{Chain: common.EthereumAssetId, AssetKey: "0xverifzer", Transaction: txid, Index: index, Amount: amt}
 	default: // NEW: an asset the ledger has never seen
 		return &common.DepositData{Chain: common.EthereumAssetId, AssetKey: "0xverifnew", Transaction: txid, Index: index, Amount: amt}
 	}
@@ -375,6 +377,7 @@ func vvNewWorld(t testing.TB, name string, seed int64, gbits int) *vvWorld {
 	w.assets["BTC"] = common.BitcoinAssetId
 	w.assets["OTH"] = vvHash("asset-oth", seed)
 	w.assets["NEW"] = vvHash("asset-new", seed)
+	w.assets["ZER"] = vvHash("asset-zero", seed)
 
 	// ---- genesis with known keys
 	type gnode = struct {
@@ -502,6 +505,26 @@ func vvNewWorld(t testing.TB, name string, seed int64, gbits int) *vvWorld {
 		w.must(t, "pend lock", store.LockUTXOs(pend.Inputs, pend.PayloadHash(), false))
 		w.must(t, "pend write", store.WriteTransaction(pend))
 		w.refPend = pend.PayloadHash()
+	}
+	// ---- an asset the ledger knows whose recorded total is exactly zero: deposited once, withdrawn in full
+	{
+		tx := common.NewTransactionV5(w.assets["ZER"])
+		dd := w.depositData("ZER", fmt.Sprintf("zero-%s-%d", name, seed), 0, vvInteger(big.NewInt(7)))
+		tx.AddDepositInput(dd)
+		tx.Outputs = append(tx.Outputs, w.scriptOut([]crypto.Key{vvPriv("zerokey", name, seed)}, 1, vvInteger(big.NewInt(7)), common.OutputTypeScript))
+		dep := tx.AsVersioned()
+		w.must(t, "zero deposit lock", store.LockDepositInput(dd, dep.PayloadHash(), false))
+		w.must(t, "zero deposit write", store.WriteTransaction(dep))
+		w.finalize(t, dep, w.hour(82))
+		tx = common.NewTransactionV5(w.assets["ZER"])
+		tx.AddInput(dep.PayloadHash(), 0)
+		tx.Outputs = append(tx.Outputs, &common.Output{Type: common.OutputTypeWithdrawalSubmit, Amount: vvInteger(big.NewInt(7)),
+			Withdrawal: &common.WithdrawalData{Address: "0xzero", Tag: ""}})
+		w.spend(t, tx, w.hour(83))
+		_, bal, err := store.ReadAssetWithBalance(w.assets["ZER"])
+		if err != nil || bal.Sign() != 0 {
+			t.Fatalf("world setup: zero-total asset has total %s (%v)", bal, err)
+		}
 	}
 	// ---- the locked output
 	w.must(t, "lock xl", store.LockUTXOs([]*common.Input{{Hash: w.slots["xl"].in.Hash, Index: w.slots["xl"].in.Index}}, vvHash("other-spender", seed), false))
@@ -982,7 +1005,7 @@ func vvBig(i common.Integer) *big.Int {
 }
 
 func (w *vvWorld) assetClass(h crypto.Hash) int {
-	for i, n := range []string{"XIN", "BTC", "OTH", "NEW"} {
+	for i, n := range []string{"XIN", "BTC", "OTH", "NEW", "ZER"} {
 		if w.assets[n] == h {
 			return i + 1
 		}
